@@ -368,12 +368,20 @@ func (mab *memoryAddrBook) ConsumePeerRecord(recordEnvelope *record.Envelope, tt
 	// lookups are cheap.
 	if found {
 		if prevRec := prevSignedAddrs(lastState); len(prevRec) > 0 {
+			// compare transport addresses: the book stores addresses without
+			// the /p2p/<peer> suffix a record may carry
 			newAddrSet := make(map[string]struct{}, len(rec.Addrs))
 			for _, a := range rec.Addrs {
-				newAddrSet[string(a.Bytes())] = struct{}{}
+				if t, pid := peer.SplitAddr(a); t != nil && (pid == "" || pid == rec.PeerID) {
+					newAddrSet[string(t.Bytes())] = struct{}{}
+				}
 			}
 			for _, a := range prevRec {
-				key := string(a.Bytes())
+				t, pid := peer.SplitAddr(a)
+				if t == nil || (pid != "" && pid != rec.PeerID) {
+					continue
+				}
+				key := string(t.Bytes())
 				if _, still := newAddrSet[key]; still {
 					continue
 				}
